@@ -370,6 +370,92 @@ fn run(line: &str) -> String {
             let cell = vi.get_cell_at(0).unwrap().clone().with_faces();
             format!("{}", cell.face_count())
         }
+        "cell_state_roundtrip" => {
+            // clone / with_faces / discard_faces keep everything they do not mention
+            let gens = [DVec3::new(0.2, 0.3, 0.4), DVec3::new(0.7, 0.6, 0.5), DVec3::new(0.5, 0.8, 0.2), DVec3::new(0.8, 0.2, 0.7)];
+            let vi = VoronoiIntegrator::build(&gens, None, DVec3::ZERO, DVec3::ONE, Dimensionality::ThreeD, false);
+            let c0 = vi.get_cell_at(1).unwrap();
+            let mut diff: Vec<String> = vec![];
+            fn key<M: meshless_voronoi::ConvexCellMarker + 'static>(c: &ConvexCell<M>) -> String {
+                let mut s = format!("idx {} loc {:?} sr {:e} dim {:?} planes", c.idx, c.loc, c.vh_safety_radius(), c.vh_dimensionality());
+                for p in &c.clipping_planes {
+                    s += &format!(" [{:?} {:?} {:?} {:?}]", p.normal(), p.plane.p, p.right_idx, p.shift);
+                }
+                s += " vertices";
+                for v in &c.vertices {
+                    s += &format!(" [{:?} {:?}]", v.loc, v.dual);
+                }
+                s
+            }
+            fn faces_key(c: &ConvexCell<meshless_voronoi::WithFaces>) -> String {
+                if !c.vh_has_face_data() {
+                    return "NO FACE DATA".to_string();
+                }
+                let mut s = format!("{} faces", c.face_count());
+                for f in 0..c.face_count() {
+                    s += &format!(" [{:?} {:?} {:?}]", c.neighbour(f), c.shift(f), c.face_vertices(f));
+                }
+                s
+            }
+            let k0 = key(c0);
+            if k0 != key(&c0.clone()) {
+                diff.push("clone of a cell without faces differs from the cell".into());
+            }
+            let wf = c0.clone().with_faces();
+            if k0 != key(&wf) {
+                diff.push(format!("with_faces changes the cell: {} -> {}", k0, key(&wf)));
+            }
+            let wfc = wf.clone();
+            if key(&wf) != key(&wfc) || faces_key(&wf) != faces_key(&wfc) {
+                diff.push(format!("clone of a cell with faces differs from the cell: faces {} -> {}", faces_key(&wf), faces_key(&wfc)));
+            }
+            let d = wf.clone().discard_faces();
+            if k0 != key(&d) || d.vh_has_face_data() {
+                diff.push(format!("discard_faces changes the cell / keeps face data: {} -> {}", k0, key(&d)));
+            }
+            if faces_key(&d.with_faces()) != faces_key(&wf) {
+                diff.push("discard_faces().with_faces() is not the identity".into());
+            }
+            if diff.is_empty() {
+                "same".to_string()
+            } else {
+                diff.join(" ; ")
+            }
+        }
+        "integrator_with_faces_mask" => {
+            // build(mask) -> with_faces() must keep everything but the face data: compare faces / safety radii / symmetric integral count
+            let gens = [DVec3::new(0.2, 0.3, 0.4), DVec3::new(0.7, 0.6, 0.5), DVec3::new(0.5, 0.8, 0.2), DVec3::new(0.8, 0.2, 0.7)];
+            let mask = [false, true, false, true];
+            let vi = VoronoiIntegrator::build(&gens, Some(&mask), DVec3::ZERO, DVec3::ONE, Dimensionality::ThreeD, false);
+            let v1 = Voronoi::from(&vi);
+            let n1 = vi.compute_face_integrals_sym::<meshless_voronoi::integrals::AreaIntegral>().len();
+            let vf = vi.with_faces();
+            let v2 = Voronoi::from(&vf);
+            let n2 = vf.compute_face_integrals_sym::<meshless_voronoi::integrals::AreaIntegral>().len();
+            let mut diff = vec![];
+            if v1.faces().len() != v2.faces().len() {
+                diff.push(format!("faces {} vs {}", v1.faces().len(), v2.faces().len()));
+            }
+            if n1 != n2 {
+                diff.push(format!("symmetric face integrals {} vs {}", n1, n2));
+            }
+            for (c1, c2) in v1.cells().iter().zip(v2.cells().iter()) {
+                if c1.safety_radius().to_bits() != c2.safety_radius().to_bits() {
+                    diff.push(format!("safety radius {:e} vs {:e}", c1.safety_radius(), c2.safety_radius()));
+                }
+                if (c1.volume() - c2.volume()).abs() > 1e-12 {
+                    diff.push(format!("volume {:e} vs {:e}", c1.volume(), c2.volume()));
+                }
+            }
+            if v1.cell_face_connections() != v2.cell_face_connections() {
+                diff.push("connectivity differs".to_string());
+            }
+            if diff.is_empty() {
+                "same".to_string()
+            } else {
+                diff.join(" ; ")
+            }
+        }
         "accessors_periodic" => {
             // two generators, periodic 3D: cells neighbour their own images; compare accessors with the face integrals
             let gens = [DVec3::new(0.3, 0.5, 0.5), DVec3::new(0.7, 0.5, 0.5)];
